@@ -13,7 +13,9 @@ import XpmVerif.Proofs.GenPath
       the property's statement, it is finding F16 (`alias_slash_key`, `outside_dotdot_key` below);
       with `enc = escapeKey` it holds for every Python dict (`*_repaired` theorems);
     * a linked task (`__xpm__.task`) other than the object itself is sealed (`submit` sets it after
-      sealing, `copy_dependencies` copies it). -/
+      sealing, `copy_dependencies` copies it) — an invariant of submission histories:
+      `Properties/C17Hist.lean`, `submit_history_ok` (there the four theorems are restated for every
+      submission of every history, with the static clauses as only hypotheses). -/
 namespace XpmVerif.C17
 open XpmVerif.GenPath
 
